@@ -33,9 +33,18 @@ def plan(tier, seed):
     return e1.plan(tier, seed) + [{'mode': 'seedcmp', 'i': i, 'n': NCMP} for i in range(NCMP)]
 
 
+def _name(x):
+    try:
+        return str(x)
+    except Exception:  # noqa
+        return None
+
+
 def find_component(text, comp, pos):
     """Earliest position >= pos where `comp` occurs as a (possibly fused) field name."""
-    c = str(comp)
+    c = _name(comp)
+    if c is None:
+        return pos          # a name that cannot be printed at all (an int beyond the str-digits limit) cannot be asked for
     best = -1
     for pat in (f"'{c}'", f"'{c}.", f".{c}'", f".{c}."):
         i = text.find(pat, pos)
@@ -66,8 +75,11 @@ def step(cands, key):
             except (ValueError, IndexError, TypeError):
                 pass
         elif values.kind(sub) == 'map':
-            nxt += [x for kk, x in sub.items() if str(kk) == str(key)]
-            nxt += [kk for kk in sub if str(kk) == str(key)]
+            # (children are keyed by the printed form of the key; an unprintable key is shown as a placeholder: take all such)
+            def same(kk):
+                return _name(kk) == _name(key) if _name(kk) is not None else 'unprintable' in str(key)
+            nxt += [x for kk, x in sub.items() if same(kk)]
+            nxt += [kk for kk in sub if same(kk)]
     return nxt
 
 
@@ -85,11 +97,11 @@ def completeness(tree, text, datum) -> t.Optional[str]:
                     return r
             for m in node.missing:
                 name = m if isinstance(m, str) else '/'.join(m)
-                if str(name) not in text:
+                if _name(name) is not None and _name(name) not in text:
                     return f"missing field {name!r} is not named"
             for x in node.extra:
-                if str(x) not in text:
-                    return f"unexpected field {x!r} is not named"
+                if _name(x) is not None and _name(x) not in text:
+                    return f"unexpected field {core.srepr(x, 60)} is not named"
             # (the statement asks for the expectation of every *leaf*; fused intermediate product nodes drop theirs)
             return None
         if n == 'SumErrorNode':
@@ -139,7 +151,8 @@ def _shown(c, text, pos):
         return 'unprintable' in text[pos:]
 
 
-HUGE = [10 ** 5000, [10 ** 5000], {'a': -10 ** 5000}, (1, 10 ** 5000)]     # values whose str() raises (int str-digits limit)
+HUGE = [10 ** 5000, [10 ** 5000], {'a': -10 ** 5000}, (1, 10 ** 5000),       # values whose str() raises (int str-digits limit)
+        {10 ** 5000: 1}, {'a': 1, 10 ** 5000: 1, 'zz': 2}, {'k': {10 ** 5000: 1}}, [{-10 ** 5000: 'x'}]]    # ... and keys
 
 
 def _components(node, depth=0):
@@ -217,7 +230,7 @@ def judge(ctx, ast, sp, T, vi, v):
         if not unspec:
             for nm, what in [(m, 'missing required field') for m in missing] + [(x, 'unexpected key') for x in extra] + \
                     [(dk, 'duplicated key') for dk in dups]:
-                if str(nm) not in text:
+                if _name(nm) is not None and _name(nm) not in text:
                     problem = f"{what} {nm!r} (per the field table) is not named"
                     break
     if not problem and not isinstance(ast, str) and ast[0] in ('union', 'optional'):
